@@ -180,6 +180,8 @@ def coq_spec(s):
         if s.get("w"):
             return f"(SStats1W {coq_bool(s['interp'])} {accs} {coq_names(s['fs'])} {coq_names(s['gs'])} {s['w']}%nat)"
         return f"(SStats1 {coq_bool(s['interp'])} {accs} {coq_names(s['fs'])} {coq_names(s['gs'])})"
+    if k in EXT_VERBS:                     # ---- extension block (Verbs3.v), see "extension: verbs of Verbs3.v" below
+        return coq_spec_ext(s)
     raise KeyError(k)
 
 
@@ -224,11 +226,20 @@ def mlr_args(s):
     if k == "stats1":
         return (["stats1", "-a", ",".join(s["accs"]), "-f", ",".join(s["fs"])] + (["-g", ",".join(s["gs"])] if s["gs"] else [])
                 + (["-i"] if s["interp"] else []) + (["-w", str(s["w"])] if s.get("w") else []))
+    if k in EXT_VERBS:                     # ---- extension block (Verbs3.v)
+        return mlr_args_ext(s)
     raise KeyError(k)
 
 
 # ------------------------------------------------------------------ definitional oracle (independent of the Coq model)
 JOINED_KEYS = [False]     # True only while asking "is the difference explained by the comma-joined grouping key alone?"
+
+
+def gkey(d, gs):
+    """group key of a record (dict) in the oracles that keep their own per-group state: the tuple of texts; the comma-joined text only
+    while classify_witness asks whether the joined key alone explains a difference (same switch as groups_of)"""
+    k = tuple(d[g] for g in gs)
+    return ",".join(k) if JOINED_KEYS[0] else k
 
 
 def groups_of(recs, gs):
@@ -457,7 +468,7 @@ def oracle(s, recs, rows):
         for r in recs:
             d = dict(r)
             if all(g in d for g in s["gs"]):
-                key = tuple(d[g] for g in s["gs"])
+                key = gkey(d, s["gs"])
                 for f in s["fs"]:
                     if f in d:
                         sums[(key, f)] = sums.get((key, f), 0) + numq(d[f])
@@ -465,7 +476,7 @@ def oracle(s, recs, rows):
             d = dict(r)
             e = [(kk, ("text", vv)) for kk, vv in r]
             if all(g in d for g in s["gs"]):
-                key = tuple(d[g] for g in s["gs"])
+                key = gkey(d, s["gs"])
                 for f in s["fs"]:
                     if f in d:
                         num = numq(d[f]) + (cum.get((key, f), 0) if s["c"] else 0)
@@ -495,7 +506,7 @@ def oracle(s, recs, rows):
         for r in recs:
             d = dict(r)
             if all(g in d for g in s["gs"]):
-                key = tuple(d[g] for g in s["gs"])
+                key = gkey(d, s["gs"])
                 members.setdefault(key, []).append(r)
                 where.append((key, len(members[key]) - 1))
             else:
@@ -643,7 +654,7 @@ def oracle(s, recs, rows):
                 d = dict(r)
                 if any(g not in d for g in s["gs"]):
                     continue
-                key = tuple(d[g] for g in s["gs"])
+                key = gkey(d, s["gs"])
                 hist.setdefault(key, []).append(r)
                 e = [(kk, ("text", vv)) for kk, vv in r]
                 # field order: fields ever seen in this group (not only in the window) keep their slot
@@ -664,6 +675,11 @@ def oracle(s, recs, rows):
         else:
             for key, m in groups_of(recs, s["gs"]):
                 exp.append([(f, ("text", v)) for f, v in zip(s["gs"], key)] + stats_fields(m))
+    elif k in EXT_VERBS:                   # ---- extension block (Verbs3.v)
+        how, res = oracle_ext(s, recs, rows)
+        if how == "result":
+            return res
+        exp = res
     else:
         raise KeyError(k)
     exp = [e for e in exp if e]                 # field-less records are not printed by the writers
@@ -776,6 +792,8 @@ def gen_case(rng, tier):
                         ["x,y", "x", "y", "y,z", "z"]])
     ng = rng.choice([0, 1, 1, 2])
     gs = rng.sample(GKEYS, ng)
+    if rng.random() < EXT_SHARE:           # ---- extension block (Verbs3.v): shares the case budget
+        return gen_case_ext(rng, tier, nrec, gvals, gs)
     if kind.startswith("stats1"):
         profile = rng.choice(["small", "small", "ints", "text"])
         pool = {"small": PLAIN + MOMENT, "ints": PLAIN, "text": ["count", "mode", "antimode", "distinct_count", "null_count", "minlen", "maxlen", "min", "max", "sum"]}[profile]
@@ -875,7 +893,9 @@ def gen_case(rng, tier):
         # look-ahead steppers: value fields present in every record (the newest-vs-centre dispatch of the code is then moot)
         recs = [r + [(f, gen_value(rng, profile)) for f in s["fs"] if f not in dict(r)] for r in recs]
     if s["verb"] in ("most-frequent", "least-frequent") and len(groups_of(recs, s["gs"])) > 12:
-        s["gs"] = s["gs"][:1]                    # sort.Slice is a stable insertion sort only up to 12 elements
+        # sort.Slice is a stable insertion sort only up to 12 elements: beyond that the order among equal counts is not modelled;
+        # the case keeps its groups and is compared with the first-principles oracle only (---- extension block: no_model)
+        s["no_model"] = True
     return s, recs
 
 
@@ -886,6 +906,184 @@ def fmt_p(half):
 def in_group_domain(s, recs):
     """property domain used for the correspondence with the model: group-by texts free of the joiner"""
     return True
+
+
+# ================================================================== extension: verbs of Verbs3.v (begin)
+# uniq -a [-c|-n], fill-empty, top with the exact keeper (top -a; value texts), step -a slwin_B_F.
+# Each: generator kind, mlr_args, coq_spec (constructors added to Harness.vspec), first-principles oracle.
+EXT_VERBS = {"uniq-a", "fill-empty", "top2", "step-slwin"}
+EXT_SHARE = 0.2                      # share of the generated cases that go to these verbs
+SLWINS = [(0, 0), (1, 0), (2, 0), (3, 0), (0, 1), (1, 1), (2, 1), (0, 2), (3, 2), (1, 3)]
+
+
+def coq_spec_ext(s):
+    k = s["verb"]
+    if k == "uniq-a":
+        return f"(SUniqA {({'plain': 'UAPlain', 'c': 'UACounts', 'n': 'UANum'}[s['mode']])} {coq_bytes(s['out'])})"
+    if k == "fill-empty":
+        return f"(SFillEmpty {coq_bytes(s['v'])})"
+    if k == "top2":
+        return f"(STop2 {coq_bool(s['a'])} {s['n']}%nat {coq_bool(not s['min'])} {coq_bytes(s['out'])} {coq_names(s['fs'])} {coq_names(s['gs'])})"
+    if k == "step-slwin":
+        return f"(SStepSlwin {coq_list(['(%d%%nat, %d%%nat)' % (b, f) for b, f in s['wins']])} {coq_names(s['fs'])} {coq_names(s['gs'])})"
+    raise KeyError(k)
+
+
+def mlr_args_ext(s):
+    k = s["verb"]
+    if k == "uniq-a":
+        return ["uniq", "-a"] + {"plain": [], "c": ["-c"], "n": ["-n"]}[s["mode"]] + (["-o", s["out"]] if s["out"] != "count" else [])
+    if k == "fill-empty":
+        return ["fill-empty"] + (["-v", s["v"]] if s["v"] != "N/A" or s.get("explicit_v") else []) + (["-S"] if s["S"] else [])
+    if k == "top2":
+        return (["top", "-f", ",".join(s["fs"])] + (["-g", ",".join(s["gs"])] if s["gs"] else []) + (["-n", str(s["n"])] if s["n"] != 1 else [])
+                + (["--min"] if s["min"] else []) + (["-a"] if s["a"] else []) + (["-F"] if s.get("F") else []) + (["-o", s["out"]] if s["out"] != "top_idx" else []))
+    if k == "step-slwin":
+        return ["step", "-a", ",".join("slwin_%d_%d" % (b, f) for b, f in s["wins"]), "-f", ",".join(s["fs"])] + (["-g", ",".join(s["gs"])] if s["gs"] else [])
+    raise KeyError(k)
+
+
+def oracle_ext(s, recs, rows):
+    """('exp', expected records as for oracle()) | ('result', None or a description of the first difference)"""
+    k = s["verb"]
+    if k == "uniq-a":
+        # distinct WHOLE records: the ordered list of (name, text) pairs
+        order, cnt = [], {}
+        for r in recs:
+            t = tuple(r)
+            if t not in cnt:
+                order.append(t)
+                cnt[t] = 0
+            cnt[t] += 1
+        if s["mode"] == "n":
+            return "exp", [[(s["out"], ("int", len(order)))]]
+        if s["mode"] == "plain":
+            return "exp", [[(kk, ("text", vv)) for kk, vv in t] for t in order]        # each distinct record once, at first sight
+        exp = []
+        for t in order:
+            e = [(kk, ("text", vv)) for kk, vv in t]
+            if s["out"] in dict(t):                                                    # the count takes the place of a field of that name
+                e = [(kk, ("int", cnt[t]) if kk == s["out"] else ev) for kk, ev in e]
+            else:
+                e = [(s["out"], ("int", cnt[t]))] + e
+            exp.append(e)
+        if sum(cnt.values()) != len(recs):
+            return "result", {"what": "internal: counts do not add up"}
+        return "exp", exp
+    if k == "fill-empty":
+        return "exp", [[(kk, ("text", s["v"] if vv == "" else vv)) for kk, vv in r] for r in recs]
+    if k == "step-slwin":
+        lead = max(f for _, f in s["wins"])
+        members, where = {}, []
+        for r in recs:
+            d = dict(r)
+            if all(g in d for g in s["gs"]):
+                key = gkey(d, s["gs"])
+                members.setdefault(key, []).append(r)
+                where.append((key, len(members[key]) - 1))
+            else:
+                where.append(None)
+        exps = []
+        for idx, r in enumerate(recs):
+            e = [(kk, ("text", vv)) for kk, vv in r]
+            if where[idx] is None:
+                exps.append((idx, idx, e))
+                continue
+            key, j = where[idx]
+            grp = members[key]
+            for f in s["fs"]:
+                if f not in dict(r):
+                    continue
+                for b, fw in s["wins"]:
+                    # mean of the field's non-empty values over the group's records j-b .. j+fw
+                    qs = [numq(dict(x)[f]) for x in grp[max(0, j - b):j + fw + 1] if dict(x).get(f, "") != ""]
+                    name, val = "%s_%d_%d" % (f, b, fw), (("flt", sum(qs) / len(qs)) if qs else ("text", ""))
+                    pos = [i for i, (kk, _) in enumerate(e) if kk == name]
+                    if pos:
+                        e[pos[0]] = (name, val)
+                    else:
+                        e.append((name, val))
+            later = [i for i, w in enumerate(where) if w is not None and w[0] == key and w[1] == j + lead]
+            exps.append((later[0] if later else len(recs), idx, e))
+        return "exp", [e for _, _, e in sorted(exps, key=lambda t: (t[0], t[1]))]
+    if k == "top2":
+        contributing = [r for r in recs if all(f in dict(r) for f in s["fs"])]
+        groups = groups_of(contributing, s["gs"])
+        if not s["a"]:
+            d = oracle(dict(s, verb="top"), recs, rows)           # ranks, names, values as numbers
+            if d is not None:
+                return "result", d
+            rr = [r for r in rows if r]
+            for gi, (key, m) in enumerate(groups):                # and every printed value is the text of a member's value
+                for i in range(s["n"]):
+                    for f in s["fs"]:
+                        t = dict(rr[gi * s["n"] + i]).get(f + "_top")
+                        if t != "" and t not in [dict(r)[f] for r in m]:
+                            return "result", {"what": "top value is not the text of any member's value", "group": list(key), "rank": i + 1, "field": f, "observed": t}
+            return "result", None
+        # -a: per group (first-appearance order) the min(n, size) best members, best first; any choice among equal values
+        f = s["fs"][0]
+        pos = 0
+        for key, m in groups:
+            vals = sort_vals([dict(r)[f] for r in m])
+            vals = (vals if s["min"] else vals[::-1])[:s["n"]]
+            got = rows[pos:pos + len(vals)]
+            pos += len(vals)
+            if len(got) != len(vals):
+                return "result", {"what": "record count", "expected_at_least": pos, "observed": len(rows)}
+            pool = [tuple(r) for r in m]
+            for i, (r, v) in enumerate(zip(got, vals)):
+                if tuple(r) not in pool:
+                    return "result", {"what": "top -a record is not a (not yet emitted) member of the group", "group": list(key), "rank": i + 1, "observed": r}
+                pool.remove(tuple(r))
+                if numq(dict(r)[f]) != numq(v) if numq(v) is not None else dict(r)[f] != v:
+                    return "result", {"what": "top -a record does not carry the rank's value", "group": list(key), "rank": i + 1, "expected_value": v, "observed": r}
+        if pos != len(rows):
+            return "result", {"what": "record count", "expected": pos, "observed": len(rows)}
+        return "result", None
+    raise KeyError(k)
+
+
+def gen_case_ext(rng, tier, nrec, gvals, gs):
+    kind = rng.choice(["uniq-a", "uniq-a", "fill-empty", "top2", "top2", "top2", "step-slwin", "step-slwin", "step-slwin", "frequent-many"])
+    if kind == "frequent-many":
+        # most/least-frequent over 13..30 groups (beyond the 12-element insertion sort of sort.Slice): first-principles oracle only
+        ngroups = rng.randint(13, 30)
+        recs = [[("b", "g%d" % rng.randint(0, ngroups - 1)), ("x", str(i))] for i in range(rng.choice([20, 40, 60]))]
+        recs += [[("b", "g%d" % i)] for i in range(ngroups) if rng.random() < 0.8]
+        rng.shuffle(recs)
+        s = {"verb": rng.choice(["most-frequent", "least-frequent"]), "gs": ["b"], "maxn": rng.choice([10, 10, 1, 3, 15, 40]), "b": rng.random() < 0.3,
+             "out": rng.choice(["count", "count", "n"]), "profile": "manygroups"}
+        if len(groups_of(recs, s["gs"])) > 12:
+            s["no_model"] = True
+        return s, recs
+    if kind == "uniq-a":
+        # few distinct records, repeated; the same fields in another order is another record
+        base = gen_records(rng, "text", rng.choice([1, 2, 3, 4]), gvals)
+        base += [list(reversed(r)) for r in base[:1]]
+        recs = [list(rng.choice(base)) for _ in range(nrec)]
+        mode = rng.choice(["plain", "c", "c", "n"])
+        return {"verb": "uniq-a", "mode": mode, "out": rng.choice(["count", "count", "n", "a", "x"]) if mode != "plain" else "count", "profile": "text"}, recs
+    if kind == "fill-empty":
+        v = rng.choice(["N/A", "N/A", "X", "0", "-1", "0x10", "1.50", "", "été"])
+        return {"verb": "fill-empty", "v": v, "S": rng.random() < 0.3, "explicit_v": rng.random() < 0.3, "profile": "text"}, gen_records(rng, "text", nrec, gvals)
+    if kind == "top2":
+        a = rng.random() < 0.6
+        s = {"verb": "top2", "a": a, "fs": rng.sample(VKEYS, 1 if a else rng.randint(1, 2)), "gs": gs, "n": rng.choice([1, 1, 2, 3, 5]), "min": rng.random() < 0.4,
+             "F": rng.random() < 0.15, "out": rng.choice(["top_idx", "top_idx", "i"]), "profile": "nums"}
+        recs = gen_records(rng, "nums", nrec, gvals)
+        if rng.random() < 0.6:         # many equal values, also equal numbers written differently (2 / 2.0)
+            s["profile"] = "ties"
+            recs = [[(kk, rng.choice(["1", "2", "2.0", "3", "1.5", "2.5", "-1", "2"]) if kk in VKEYS else vv) for kk, vv in r] for r in recs]
+        return s, recs
+    wins = rng.sample(SLWINS, rng.choice([1, 1, 2]))
+    s = {"verb": "step-slwin", "wins": wins, "fs": rng.sample(VKEYS, rng.randint(1, 2)), "gs": gs, "profile": "stepnums"}
+    recs = gen_records(rng, "stepnums", nrec, gvals)
+    if any(f > 0 for _, f in wins):
+        # look-ahead: value fields present in every record (the code decides present/absent on the newest record while the steppers act on the centre)
+        recs = [r + [(f, gen_value(rng, "stepnums")) for f in s["fs"] if f not in dict(r)] for r in recs]
+    return s, recs
+# ================================================================== extension: verbs of Verbs3.v (end)
 
 
 # ------------------------------------------------------------------ DSL statistics functions (one mlr process for all cases)
@@ -1115,6 +1313,10 @@ def probe_known(ctx):
 def classify_witness(s, recs, diff, rows=None):
     """group-key-comma-collision only when the comma-joined key explains the WHOLE difference"""
     gs = s.get("gs") or []
+    if s["verb"] == "step-slwin" and isinstance(diff, dict) and diff.get("what") == "record count" and rows is not None:   # ---- extension block
+        lead = max(w[1] for w in s["wins"])          # same window keeper, same drain: forward >= 2 and a group shorter than that
+        if lead > 1 and any(len(m) < lead for _, m in groups_of(recs, gs)) and len(rows) < len(recs):
+            return "step-shift-lead-short-group-drops-records"
     if s["verb"] == "step" and isinstance(diff, dict) and diff.get("what") == "record count" and rows is not None:
         lead = max([stepper_parts(a)[1] for a in s["steppers"] if stepper_parts(a)[0] == "shift_lead"] + [0])
         sizes = [len(m) for _, m in groups_of(recs, gs)]
@@ -1149,7 +1351,7 @@ def run(ctx):
     ctx.assumptions = ["binary64 rounding is not modelled (theorems exact over Q)", "number grammar restricted to canonical ints and d+.d+ decimals in the model"]
     forbidden_gate(ctx, ["Base", "C10"])
     ok, why = check_props(ctx, "C10/Props.v", ["C10/Harness.vo", "C10/Proofs.vo", "C10/ProofsMode.vo", "C10/ProofsMinMax.vo", "C10/ProofsFrac.vo", "C10/ProofsStep.vo"])
-    ncases = int(os.environ.get("C10_CASES", "0")) or (900 if ctx.tier == "quick" else 8000)
+    ncases = int(os.environ.get("C10_CASES", "0")) or (640 if ctx.tier == "quick" else 8000)
     terms, meta = [], []
     oracle_bad = []
     run_classes = set()
@@ -1166,8 +1368,13 @@ def run(ctx):
                 cls2, rows2, err2 = run_mlr(ctx, args, recs)
                 n_cli += 1
                 if cls2 != "ok" or rows != rows2:
+                    # step slwin keeps records it has already emitted in its look-back window; with --jvquoteall (used by this
+                    # harness) the writer goroutine turns their values into strings concurrently: a timing-dependent "(error)"
+                    # (finding step-slwin-emitted-record-race, c10.findings.md 7); any other difference is a plain violation
+                    racy = cls2 == "ok" and any("slwin" in a for a in args) and any(t == "(error)" for r in rows2 for _, t in r)
                     ctx.violation({"broken": "command-line path differs from in-process verb", "args": args, "input": dkvp(recs, ";", ":").decode(),
-                                   "observed_cli": rows2 if cls2 == "ok" else err2, "observed_inprocess": rows}, found_input=False)
+                                   "observed_cli": rows2 if cls2 == "ok" else err2, "observed_inprocess": rows,
+                                   **({"class": "step-slwin-emitted-record-race"} if racy else {})}, found_input=racy)
                 via = "mlr"
             ctx.dist("verb:" + s["verb"] + (":w" if s.get("w") else "") + (":i" if s.get("interp") else ""))
             ctx.dist("profile:" + s.get("profile", "-"))
@@ -1186,7 +1393,9 @@ def run(ctx):
                 d = {"what": "counts do not add up to the number of contributing records"}
             if d is not None:
                 oracle_bad.append((s, recs, rows, d))
-            if True:
+            if s.get("no_model"):                  # ---- extension block: oracle only (most/least-frequent with more than 12 groups)
+                ctx.dist("oracle-only:" + s["verb"])
+            else:
                 terms.append(f"({coq_spec(s)},\n {coq_records(recs)},\n {coq_obs(rows)})")
                 meta.append((s, recs, rows))
             if i in (3, 50, 200, 400):
@@ -1196,6 +1405,8 @@ def run(ctx):
         check_dsl(ctx, terms, meta, oracle_bad)
         check_pctl_grid(ctx, terms, meta, oracle_bad)
         probe_known(ctx)
+        from checks.c10_dsl import check_dsl_ext      # DSL statistics functions on strings/maps/empties/options (coq/C10/ModelDsl.v)
+        check_dsl_ext(ctx)
     ctx.cov["oracle"] = {"cases": len(meta), "disagreements": len(oracle_bad)}
     if not ok:
         if oracle_bad:
@@ -1206,7 +1417,7 @@ def run(ctx):
             ctx.violation({"broken": why}, found_input=False)
         return
     with ctx.timed("coq_cases"):
-        bad, err = coq_eval_mismatches(ctx, "C10", "C10.Model C10.Verbs C10.Verbs2 C10.Harness", "vspec * list record * list obsrec", "chk", terms, shard=len(terms) // 2 + 1)   # at most two coqc processes at a time
+        bad, err = coq_eval_mismatches(ctx, "C10", "C10.Model C10.Verbs C10.Verbs2 C10.Verbs3 C10.Harness", "vspec * list record * list obsrec", "chk", terms, shard=len(terms) // 2 + 1)   # at most two coqc processes at a time
     ctx.cov["correspondence"] = {"cases": len(terms), "mismatches": len(bad)}
     if err:
         ctx.violation({"broken": "correspondence-evaluation", "detail": err[-2000:]}, found_input=False)
